@@ -873,8 +873,7 @@ class Node:
             if keep_children:
                 # Check the unique constraint for all clones before removing the
                 # first one (otherwise a refused call has already removed some)
-                for c in self.get_clones(add_self=True):
-                    c._check_keep_children()
+                self._check_keep_children(with_clones=True)
             for c in self.get_clones():  # Excluding self
                 if c._tree is None:
                     continue  # Already removed as descendant of another clone
@@ -906,21 +905,34 @@ class Node:
 
         self._tree._unregister(self)
 
-    def _check_keep_children(self) -> None:
+    def _check_keep_children(self, *, with_clones=False) -> None:
         """Raise UniqueConstraintError if moving the children one level up would
-        place a second node with the same data below the parent."""
-        children = self._children
-        if children:
-            sibling_ids = {
-                n._data_id
-                for n in self._parent._children  # type: ignore
-                if n is not self
-            }
-            for c in children:
-                if c._data_id in sibling_ids:
+        place a second node with the same data below the parent.
+
+        If `with_clones` is true, the structure that remains after all clones
+        are removed is checked (clones may be nested).
+        """
+        removed = self.get_clones(add_self=True) if with_clones else [self]
+        removed_ids = {id(n) for n in removed}
+
+        def _remaining(nodes):
+            for n in nodes:
+                if id(n) not in removed_ids:
+                    yield n
+                elif n._children:
+                    yield from _remaining(n._children)
+
+        for node in removed:
+            parent = node._parent
+            if not node._children or id(parent) in removed_ids:
+                continue
+            data_ids = set()
+            for n in _remaining(parent._children):
+                if n._data_id in data_ids:
                     raise UniqueConstraintError(
-                        f"Node.data already exists in parent: {c}"
+                        f"Node.data already exists in parent: {n}"
                     )
+                data_ids.add(n._data_id)
 
     def remove_children(self) -> None:
         """Remove all children of this node, making it a leaf node."""
